@@ -558,10 +558,31 @@ impl<'a> Http2Parser<'a> {
         // Every parse starts at the beginning of a connection: start from an empty dynamic table
         *self.hpack_decoder.borrow_mut() = Decoder::new();
 
-        for frame in stream_frames {
+        // A header block is the HEADERS fragment (without padding and priority fields)
+        // followed by the CONTINUATION fragments, up to END_HEADERS (RFC 7540 section 6.2, 6.10)
+        let mut block: Vec<u8> = Vec::new();
+        let last_index = stream_frames.len().saturating_sub(1);
+
+        for (index, frame) in stream_frames.iter().enumerate() {
             match frame.frame_type {
                 Http2FrameType::Headers | Http2FrameType::Continuation => {
-                    let frame_headers = self.parse_headers_payload(&frame.payload)?;
+                    let fragment = if frame.frame_type == Http2FrameType::Headers {
+                        Self::headers_fragment(frame)?
+                    } else {
+                        frame.payload.as_slice()
+                    };
+                    block.extend_from_slice(fragment);
+
+                    let end_headers = frame.flags & 0x4 != 0;
+                    let more_fragments = stream_frames
+                        .get(index.saturating_add(1))
+                        .is_some_and(|next| next.frame_type == Http2FrameType::Continuation);
+                    if !end_headers && more_fragments && index != last_index {
+                        continue;
+                    }
+
+                    let frame_headers = self.parse_headers_payload(&block)?;
+                    block.clear();
                     for header in frame_headers {
                         match header.name.as_str() {
                             ":method" => method = Some(header.value.clone().unwrap_or_default()),
@@ -582,6 +603,32 @@ impl<'a> Http2Parser<'a> {
         }
 
         Ok(Http2Stream { stream_id, headers, method, path, authority, scheme, status })
+    }
+
+    /// The header block fragment of a HEADERS frame: payload without the pad length,
+    /// the priority fields and the padding
+    fn headers_fragment(frame: &Http2Frame) -> Result<&[u8], Http2ParseError> {
+        let mut fragment = frame.payload.as_slice();
+        let mut pad_len: usize = 0;
+        if frame.flags & 0x8 != 0 {
+            let (&first, rest) = fragment
+                .split_first()
+                .ok_or(Http2ParseError::InvalidFrameLength(frame.length))?;
+            pad_len = usize::from(first);
+            fragment = rest;
+        }
+        if frame.flags & 0x20 != 0 {
+            fragment = fragment
+                .get(5..)
+                .ok_or(Http2ParseError::InvalidFrameLength(frame.length))?;
+        }
+        let end = fragment
+            .len()
+            .checked_sub(pad_len)
+            .ok_or(Http2ParseError::InvalidFrameLength(frame.length))?;
+        fragment
+            .get(..end)
+            .ok_or(Http2ParseError::InvalidFrameLength(frame.length))
     }
 
     fn parse_headers_payload(&self, payload: &[u8]) -> Result<Vec<HttpHeader>, Http2ParseError> {
